@@ -237,6 +237,14 @@ def build_and_observe(bk, case):
 
     backend, mode, order, dirs, hist = case["backend"], case["mode"], case["order"], case["dirs"], case["h"]
     storage = bk.get(backend)
+    if backend == "inmem":
+        # the other backends are shared by many studies; a fresh in-memory storage gets 0-2 trials of an unrelated study
+        # first, so that trial ids and trial numbers of the study under test differ (decided by the case alone: replayable)
+        k = (len(hist) + len(dirs)) % 3
+        if k:
+            pre = optuna.create_study(storage=storage, direction="maximize")
+            for j in range(k):
+                pre.add_trial(optuna.trial.create_trial(value=float(50 + j)))
     study = optuna.create_study(storage=storage, directions=["minimize" if d == MIN else "maximize" for d in dirs])
     st, sid = study._storage, study._study_id
     S = {s.name: s for s in TrialState}
